@@ -126,6 +126,40 @@ func checkC19(c *Ctx, r *Report) {
 		"a parsed file is registered once (packageToFiles and the file set do not grow on reload)")
 	checkGraphIdempotency(c, r, "C19.b")
 
+	// eviction happens only for a changed file version: RemoveNode has no other caller
+	ruleWhoCalls(c, r, "C19.b", nameIs("(*"+pkgSdg+".SymbolGraph).RemoveNode"), "(*graphs/symboldg.SymbolGraph).RemoveNode",
+		[]string{"(*" + pkgSdg + ".SymbolGraph).idempotencyGuard", "(*" + pkgSdg + ".SymbolGraph).RemoveNode"}, 2,
+		"a node is evicted only by the version-aware guard (and its cascade): an unconditional eviction on re-analysis drops edges that cached visitors never re-create")
+	// the session's controllers come from the graph (idempotent), not from a visitor-held list that grows with every visit
+	{
+		viol := ""
+		var sites []string
+		for _, cl := range w.callersOf(nameIs("(core/visitors.ControllerVisitor).GetControllers")) {
+			fn := fnShort(cl.Parent())
+			sites = append(sites, w.pos(cl.Pos()))
+			viol = fmt.Sprintf("%s: %s reads ControllerVisitor.GetControllers(): that slice is appended on every visit of a controller, so from the second GenerateGraph of a session on every controller (and its routes) appears once per pass", w.pos(cl.Pos()), fn)
+		}
+		if fi := need(c, r, "C19.b", "(*core/pipeline.GleecePipeline).getControllers"); fi != nil {
+			sites = append(sites, w.pos(fi.Decl.Pos()))
+			a := newAtoms()
+			for _, ex := range exitsOf(fi.SSA) {
+				if ex.Ret != nil && len(ex.Ret.Results) == 1 {
+					backSlice(ex.Ret.Results[0], a, map[ssa.Value]bool{}, 0)
+				}
+			}
+			fromGraph := false
+			for k := range a.Calls {
+				if strings.HasSuffix(k, ".FindByKind") {
+					fromGraph = true
+				}
+			}
+			if !fromGraph && viol == "" {
+				viol = fmt.Sprintf("%s: the controllers a pass works on are not taken from the symbol graph (FindByKind), the one store that re-analysis leaves unchanged", w.pos(fi.Decl.Pos()))
+			}
+		}
+		r.add("C19.b", "fieldflow", "pipeline.getControllers:from-graph", "the controllers of a pass are the graph's controller nodes, not an accumulating visitor list", []string{"(*core/pipeline.GleecePipeline).getControllers"}, sites, viol)
+	}
+
 	// ---- C19.c an `already cached` error never fails a repeated visit
 	checkCacheAddErrors(c, r)
 
